@@ -1,4 +1,5 @@
 import SynRBLModel.Proofs.Stats
+import SynRBLModel.Proofs.StatsDict
 /-!
 # C18 — run statistics agree with the returned rows
 -/
@@ -140,5 +141,51 @@ theorem C18_attribution (cfg : Config) (rows : List InRow) (hL : ∀ x ∈ rows,
     exact sum_le_sum rows _ _ (fun x hx => (stats_row_attribution cfg x (hL x hx)).1)
   · rw [List.countP_map, ← sum_b2n_eq_countP]
     exact sum_le_sum rows _ _ (fun x hx => (stats_row_attribution cfg x (hL x hx)).2)
+
+/-! ### the statistics *dictionary* (`merge_stats`) -/
+
+/-- **C18 (merge).** `merge_stats` adds the values of every key, a key absent on one side counting 0, whatever the two
+key sets and orders are. -/
+theorem C18_merge_adds (s n : Dict) (k : Key) : Dict.val (mergeStats s n) k = Dict.val s k + Dict.val n k :=
+  mergeStats_val s n k
+
+/-- **C18 (merge).** The merged dictionary has exactly the keys of both operands: a counter that only a later batch
+reports is adopted, none is dropped. -/
+theorem C18_merge_keys (s n : Dict) (k : Key) :
+    k ∈ Dict.keys (mergeStats s n) ↔ k ∈ Dict.keys s ∨ k ∈ Dict.keys n :=
+  mem_keys_mergeStats s n k
+
+/-- **C18 (dictionary).** After `rebalance(..., batch_size=n)` the caller's dictionary — merged batch by batch, the
+batches reporting different key sets (a batch without a valid row reports `reaction_cnt` only) — holds under every key
+the count the property names. -/
+theorem C18_dict_agrees (cfg : Config) (n : Nat) (hn : 1 ≤ n) (rows : List InRow) :
+    Dict.val (rebalanceDict cfg n rows) "reaction_cnt" = rows.length ∧
+    Dict.val (rebalanceDict cfg n rows) "balanced_cnt" =
+      (rows.map (runIn cfg)).countP (fun r => r.solvedBy == some .input) ∧
+    Dict.val (rebalanceDict cfg n rows) "confident_cnt" =
+      (rows.map (runIn cfg)).countP (fun r => r.solved && r.solvedBy == some .mcs) ∧
+    Dict.val (rebalanceDict cfg n rows) "mcs_applied" = rows.countP (unsolvedBeforeMcs cfg) ∧
+    Dict.val (rebalanceDict cfg n rows) "rb_solved" ≤ Dict.val (rebalanceDict cfg n rows) "rb_applied" ∧
+    Dict.val (rebalanceDict cfg n rows) "mcs_solved" ≤ Dict.val (rebalanceDict cfg n rows) "mcs_applied" := by
+  obtain ⟨h1, h2, h3, h4, h5, h6⟩ := C18_statistics_agree cfg rows
+  simp only [rebalanceDict_val, rebalance_eq cfg n hn rows]
+  refine ⟨?_, ?_, ?_, ?_, ?_, ?_⟩
+  · simp [RowStats.field, h1]
+  · simp [RowStats.field, h2]
+  · simp [RowStats.field, h3]
+  · simp [RowStats.field, h4]
+  · simp only [RowStats.field]; simp; exact h5
+  · simp only [RowStats.field]; simp; exact h6
+
+/-- **C18 (dictionary keys).** A counter is reported as soon as any batch wrote it, whichever batch came first; the
+dictionary stays well formed. -/
+theorem C18_dict_keys (cfg : Config) (n : Nat) (rows : List InRow) (k : Key) :
+    (k ∈ Dict.keys (rebalanceDict cfg n rows) ↔ ∃ b ∈ batchesOf n rows, k ∈ Dict.keys (batchDict cfg b)) ∧
+    Dict.WF (rebalanceDict cfg n rows) :=
+  ⟨mem_keys_rebalanceDict cfg n rows k, rebalanceDict_wf cfg n rows⟩
+
+/-- non-vacuity: a first dictionary with `reaction_cnt` only, then a full one — all seven keys come out, values added -/
+example : mergeStats [("reaction_cnt", 1)] [("reaction_cnt", 2), ("balanced_cnt", 1), ("rb_applied", 1)]
+    = [("reaction_cnt", 3), ("balanced_cnt", 1), ("rb_applied", 1)] := by decide
 
 end SynRBL
